@@ -103,6 +103,7 @@ impl Property for C20 {
             note: String::new(),
             decoy_in_cwd: false,
             echo_mode: false,
+            extra: Default::default(),
         };
         let (ropt, r): (Opt, String) = match rng.weighted(&[6, 2, 1, 2]) {
             0 => {
